@@ -147,6 +147,7 @@ func C08(c *Ctx) {
 	const r6 = "K2.gc-liveness-guard"
 	gcLivenessGroup(c, r6)
 	gcReinsertAtomicGroup(c, "K4.gc-reinsert-atomic-with-check")
+	newestAcrossSourcesGroup(c, "K10.newest-version-across-sources")
 	const r5 = "K3.gc-writes-through-pipeline"
 	c.Rule(r5, "from RunValueLogGC the LSM write entry points are reached only through DB.batchSet → sendToWriteCh → commit worker; rewrite calls no LSM/memtable/WAL mutator directly")
 	if fn := c.Fn("", "valueLog.rewrite"); fn != nil {
